@@ -29,7 +29,20 @@ lake env lean --run scripts/C19ContractsExercised.lean "$W/ops.txt" "$W/impl.txt
 python3 - "$W/out.json" "$ROOT/evidence/C19-contracts.json" "$TIER" "$SEED" <<'PY'
 import json,sys
 d=json.load(open(sys.argv[1])); d['tier']=sys.argv[3]; d['seed']=int(sys.argv[4])
-d['what']='skeleton runs of the driver over the op stream; a handler run is counted only in a history on which the real code (harness exec) agreed with the driver on every line'
+d['what']='skeleton runs of the driver over the op stream (handlers on call, processConnectedBlock on notify, the tail of proccessReceivedTx on recvtx, asyncImport on impstep, asyncRemove on rmrun); a run is counted only in a history on which the real code (harness exec) agreed with the driver on every line'
+# REQUIRED FLOOR: every class a / a- callee and every follower-path class b / d callee must be exercised at least once.
+# Not in the floor: the two channel receives of `handle` (the harness calls processConnectedBlock directly; the
+# unconfirmed path through handle needs a live netsync.SyncManager).
+FOLLOWER_BD=['txmgr.NewTxRecordFromMsgTx','range wss','range mas','massutil.NewBlock(block).TxLoc()','prevTx.TxOut[i]',
+ 'w.syncStore.GetWalletStatus','w.syncStore.SyncedTo','addedExpireMempool','blocksToConnect.Front()','h.expiredMempool',
+ 'h.expiredMempool[height] or a new map','h.mempool','h.mempool, h.expiredMempool','maps made by the caller',
+ 'newTailBlock := newBest','range irrelevantTxs','rec of a relevant transaction','recInCurBlk[txIn.PreviousOutPoint.Hash]']
+ce=d['contracts_exercised']
+req=sorted(set([k for k,v in ce.items() if v['class'] in ('a','a-')]+FOLLOWER_BD))
+missing=[k for k in req if k not in ce or ce[k]['reached']==0 or ce[k]['held']!=ce[k]['reached']]
+d['floor_required']=req; d['floor_missing']=missing
+d['floor_ok']=(not missing) and d['lines_disagreeing']==0 and d['runLog_vs_run_mismatch']==0
 json.dump(d,open(sys.argv[2],'w'),indent=1)
-print('handler runs %d (counted %d), callees exercised %d / %d, disagreeing lines %d'%(d['handler_runs'],d['handler_runs_counted'],d['callees_exercised'],d['callees_with_contract'],d['lines_disagreeing']))
+print('handler runs %d (counted %d), follower/worker runs %d (counted %d), callees exercised %d / %d, disagreeing lines %d, floor %s %s'%(d['handler_runs'],d['handler_runs_counted'],d['follower_runs'],d['follower_runs_counted'],d['callees_exercised'],d['callees_with_contract'],d['lines_disagreeing'],'ok' if d['floor_ok'] else 'NOT MET',missing))
+sys.exit(0 if d['floor_ok'] else 1)
 PY
